@@ -18,6 +18,9 @@ LEVEL_TEXT = ('Seeded search over query histories: three twins of one finite rul
 LEVEL_NOTE = ('Trusted: list(uncached twin) as L (the property is stated relative to it); Python list semantics as the query model. Single thread; thread schedules over the same cache are C11.')
 TECHNIQUE = ('deterministic simulation of cache-state histories against a list reference model')
 
+REAL = ['dateutil.rrule from /repo/src', 'CPython list/slice semantics as the query model']
+STUB = ['the cache mutex (SimLock)', 'cache-state history (generated warm-ups and query order)']
+
 CLASSES = {
     "hist": dict(quick=20000, thorough=500000, timeout=30),
 }
